@@ -73,7 +73,9 @@ def programs(draw):
              "visible": draw(st.booleans()),
              "spread": draw(st.integers(2, 12))} for _ in range(nobj)]
     dyn = draw(st.booleans())
+    ring = draw(st.integers(0, 3)) == 0
     return {
+        "ring": ring,
         "leaves": leaves, "reqs": reqs, "objs": objs, "dynamic": dyn,
         "mode2D": draw(st.sampled_from([False, False, True])),
         "seed": draw(st.integers(0, 10**6)),
@@ -98,8 +100,19 @@ def leaf_src(i, l, leaves):
     raise ValueError(k)
 
 
+RING = """import trimesh
+ring = trimesh.creation.annulus(r_min=4, r_max=9, height=3)
+workspace = Workspace(MeshVolumeRegion(mesh=ring, dimensions=(18, 18, 3)))
+"""
+
+
 def emit(p):
     L = []
+    ring = p.get("ring") and not p["mode2D"]
+    if ring:
+        # non-convex mesh container: its containment check draws points with the global numpy
+        # generator, and positions `in` it are sampled with it too
+        L.append(RING)
     leaves = p["leaves"]
     for i, l in enumerate(leaves):
         L.append(f"x{i} = {leaf_src(i, l, leaves)}")
@@ -108,14 +121,15 @@ def emit(p):
         L.append(f"param p{j} = {n}")
     onames = [f"x{i}" for i, l in enumerate(leaves) if l["usage"] == "obj"]
     foo = " + ".join(onames) if onames else "0"
-    L.append(f"ego = new Object at (Range(-1, 1), Range(-1, 1)), with foo {foo}, "
+    egopos = "in workspace" if ring else "at (Range(-1, 1), Range(-1, 1))"
+    L.append(f"ego = new Object {egopos}, with foo {foo}, "
              f"with requireVisible False" + (", with behavior B()" if p["dynamic"] else ""))
     for j, o in enumerate(p["objs"]):
         s = o["spread"]
         vis = " visible from ego," if o["visible"] else ""
         shape = "" if p["mode2D"] else SHAPES[o["shape"]]  # 2D mode only allows boxes
-        L.append(f"o{j} = new Object{vis} at ({3 * (j + 1)} + Range(0, {s}), Range(-{s}, {s})), "
-                 f"with requireVisible False{shape}")
+        where = "in workspace" if ring else f"at ({3 * (j + 1)} + Range(0, {s}), Range(-{s}, {s}))"
+        L.append(f"o{j} = new Object{vis} {where}, with requireVisible False{shape}")
     for j, r in enumerate(p["reqs"]):
         terms = " + ".join(f"x{i}" for i in r["names"])
         bound = sum(leaves[i]["lo"] for i in r["names"]) + r["slack"]
@@ -164,6 +178,8 @@ def features(p):
         f.append("dynamic")
     if p["mode2D"]:
         f.append("mode2D")
+    if p.get("ring") and not p["mode2D"]:
+        f.append("nonconvex-mesh-workspace")
     f.append(f"history:{p['history']}")
     return f
 
